@@ -49,6 +49,8 @@ type UEvent struct {
 	Cut  string `json:"cut,omitempty"`    // "" | hdr (plaintext shorter than the fixed header) | pad (padding overruns) | addr (bad ATYP)
 	Ref  int    `json:"ref,omitempty"`    // replay/flip/trunc: index of the earlier event whose bytes are reused
 	Bit  int    `json:"bit,omitempty"`    // flip: bit position (mod length); trunc: bytes to cut; short: length
+	KU   int    `json:"ku,omitempty"`     // eih: user whose key seals the body
+	EU   int    `json:"eu,omitempty"`     // eih: identity header user: 0 = same as ku, k>0 = user k-1, 9 = no known user
 	Skip bool   `json:"skip,omitempty"`   // not executed (used by the junk-removal oracle and the shrinker)
 }
 
@@ -56,6 +58,7 @@ type UCase struct {
 	Side   string   `json:"side"` // server | client
 	Size   uint64   `json:"size"` // configured filter size (0 = default)
 	PSKLen int      `json:"psk_len"`
+	Eih    bool     `json:"eih,omitempty"` // side client: the client is configured with one identity header (iPSK)
 	Seed   uint64   `json:"seed"`
 	Events []UEvent `json:"events"`
 }
@@ -69,7 +72,8 @@ type truth struct {
 	typ      int
 	ts       int64
 	csid     uint64
-	rest     bool
+	pad      bool // padding length fits
+	addr     bool // SOCKS address parses
 }
 
 type keys struct {
@@ -158,7 +162,8 @@ func (k *keys) decode(pkt []byte, server bool, ownSid *uint64) (tr truth) {
 	}
 	pad := int(binary.BigEndian.Uint16(plain[fixed-2:]))
 	rest := plain[fixed:]
-	tr.rest = pad <= len(rest) && len(rest)-pad >= 7 && rest[pad] == 1
+	tr.pad = pad <= len(rest)
+	tr.addr = tr.pad && len(rest)-pad >= 7 && rest[pad] == 1
 	return
 }
 
@@ -178,12 +183,12 @@ func classify(err error) string {
 		return "timestamp"
 	case errors.Is(err, ss2022.ErrClientSessionIDMismatch):
 		return "csid"
-	case errors.Is(err, ss2022.ErrPacketIncompleteHeader):
-		return "malformed"
+	case errors.Is(err, ss2022.ErrPacketIncompleteHeader): // fixed-length part missing, or padding overruns
+		return "incomplete"
 	case err.Error() == "cipher: message authentication failed":
 		return "auth"
 	case strings.HasPrefix(err.Error(), "addr length") || strings.HasPrefix(err.Error(), "invalid ATYP"):
-		return "malformed"
+		return "addr"
 	}
 	return "other:" + err.Error()
 }
@@ -191,9 +196,6 @@ func classify(err error) string {
 // canonModel maps the model's result names onto the classes the implementation's errors can be told apart into.
 func canonModel(s string) string {
 	f := strings.Fields(s)
-	if len(f) > 0 && (f[0] == "incomplete" || f[0] == "rest") {
-		f[0] = "malformed"
-	}
 	return strings.Join(f, " ")
 }
 
@@ -205,6 +207,7 @@ type uResult struct {
 	ran    []bool
 	panic  any
 	setup  string
+	ets    []etruth // side eih
 }
 
 var (
@@ -222,7 +225,13 @@ func b01(b bool) string {
 // runU executes the case on the real unpackers inside a synctest bubble.
 func runU(t *testing.T, c UCase) (res uResult) {
 	synctest.Test(t, func(t *testing.T) {
-		res.panic = common.Safely(func() { runUInner(c, &res) })
+		res.panic = common.Safely(func() {
+			if c.Side == "eih" {
+				runEih(c, &res)
+			} else {
+				runUInner(c, &res)
+			}
+		})
 	})
 	return
 }
@@ -243,7 +252,18 @@ func runUInner(c UCase, res *uResult) {
 		res.setup = err.Error()
 		return
 	}
-	ccc, err := ss2022.NewClientCipherConfig(psk, nil, true)
+	var ipsks [][]byte
+	sepBlock := ucc.Block() // the block cipher of the separate header of client packets
+	if c.Eih && c.Side == "client" {
+		ipsk := r.Bytes(c.PSKLen)
+		icc, err := ss2022.NewServerIdentityCipherConfig(ipsk, true)
+		if err != nil {
+			res.setup = err.Error()
+			return
+		}
+		ipsks, sepBlock = [][]byte{ipsk}, icc.UDP()
+	}
+	ccc, err := ss2022.NewClientCipherConfig(psk, ipsks, true)
 	if err != nil {
 		res.setup = err.Error()
 		return
@@ -273,7 +293,7 @@ func runUInner(c UCase, res *uResult) {
 	// learn the real client session id from a packed packet (the harness holds the keys)
 	probe := packClient([]byte("probe"))
 	hdr := make([]byte, 16)
-	k.block.Decrypt(hdr, probe[:16])
+	sepBlock.Decrypt(hdr, probe[:16])
 	csid := binary.BigEndian.Uint64(hdr)
 	realPid := uint64(1) // next packet id of the real client packer
 
@@ -332,7 +352,7 @@ func runUInner(c UCase, res *uResult) {
 		case "real":
 			if c.Side == "server" {
 				pkt = packClient(payload)
-				tr = truth{long: true, sid: csid, pid: realPid, auth: true, hdr: true, typ: ss2022.HeaderTypeClientPacket, ts: now.Unix(), rest: true}
+				tr = truth{long: true, sid: csid, pid: realPid, auth: true, hdr: true, typ: ss2022.HeaderTypeClientPacket, ts: now.Unix(), pad: true, addr: true}
 				realPid++
 			} else {
 				idx := e.Sess % 2 // two real server sessions at most
@@ -361,7 +381,7 @@ func runUInner(c UCase, res *uResult) {
 					k.block.Decrypt(hdr, pkt[:16])
 					realSsid[idx] = binary.BigEndian.Uint64(hdr)
 				}
-				tr = truth{long: true, sid: realSsid[idx], pid: realSpid[idx], auth: true, hdr: true, typ: ss2022.HeaderTypeServerPacket, ts: now.Unix(), csid: csid, rest: true}
+				tr = truth{long: true, sid: realSsid[idx], pid: realSpid[idx], auth: true, hdr: true, typ: ss2022.HeaderTypeServerPacket, ts: now.Unix(), csid: csid, pad: true, addr: true}
 				realSpid[idx]++
 			}
 		case "craft":
@@ -375,7 +395,7 @@ func runUInner(c UCase, res *uResult) {
 				pc = foreignCsid
 			}
 			pkt = k.craft(c.Side == "client", sid, e.Pid, e.Typ, ts, pc, e.Pad, e.Cut, payload)
-			tr = truth{long: true, sid: sid, pid: e.Pid, auth: true, hdr: e.Cut != "hdr", typ: e.Typ, ts: ts, csid: pc, rest: e.Cut != "pad" && e.Cut != "addr"}
+			tr = truth{long: true, sid: sid, pid: e.Pid, auth: true, hdr: e.Cut != "hdr", typ: e.Typ, ts: ts, csid: pc, pad: e.Cut != "pad", addr: e.Cut != "pad" && e.Cut != "addr"}
 			if c.Side == "server" && sid != csid {
 				tr.auth = false // sealed with another client session's key
 			}
@@ -403,7 +423,7 @@ func runUInner(c UCase, res *uResult) {
 		if e.Kind == "real" || e.Kind == "craft" { // self-check of the harness: construction and decoder agree
 			d := k.decode(pkt, c.Side == "client", own)
 			if d.sid != tr.sid || d.pid != tr.pid || d.auth != tr.auth || d.long != tr.long || (d.auth && d.hdr != tr.hdr) ||
-				(d.auth && d.hdr && (d.typ != tr.typ || d.ts != tr.ts || d.rest != tr.rest || (c.Side == "client" && d.csid != tr.csid))) {
+				(d.auth && d.hdr && (d.typ != tr.typ || d.ts != tr.ts || d.pad != tr.pad || d.addr != tr.addr || (c.Side == "client" && d.csid != tr.csid))) {
 				panic(fmt.Sprintf("harness self-check: event %d constructed as %+v but decodes as %+v", i, tr, d))
 			}
 			tr = d
@@ -415,7 +435,7 @@ func runUInner(c UCase, res *uResult) {
 		res.nows[i] = nowNs
 		buf := append([]byte(nil), pkt...)
 		if c.Side == "server" {
-			res.lines = append(res.lines, fmt.Sprintf("srv pkt %d %s %d %s %s %d %d %s", nowNs, b01(tr.long), tr.pid, b01(tr.auth), b01(tr.hdr), tr.typ, uint64(tr.ts), b01(tr.rest)))
+			res.lines = append(res.lines, fmt.Sprintf("srv pkt %d %s %d %s %s %d %d %s %s", nowNs, b01(tr.long), tr.pid, b01(tr.auth), b01(tr.hdr), tr.typ, uint64(tr.ts), b01(tr.pad), b01(tr.addr)))
 			var out string
 			if len(buf) < 16 {
 				_, err := srv.SessionInfo(buf)
@@ -438,7 +458,7 @@ func runUInner(c UCase, res *uResult) {
 			}
 			res.impl = append(res.impl, out)
 		} else {
-			res.lines = append(res.lines, fmt.Sprintf("cli pkt %d %s %d %d %s %s %d %d %d %s", nowNs, b01(tr.long), tr.sid, tr.pid, b01(tr.auth), b01(tr.hdr), tr.typ, uint64(tr.ts), tr.csid, b01(tr.rest)))
+			res.lines = append(res.lines, fmt.Sprintf("cli pkt %d %s %d %d %s %s %d %d %d %s %s", nowNs, b01(tr.long), tr.sid, tr.pid, b01(tr.auth), b01(tr.hdr), tr.typ, uint64(tr.ts), tr.csid, b01(tr.pad), b01(tr.addr)))
 			_, ps, pl, err := cunp.UnpackInPlace(buf, srcAddr, 0, len(buf))
 			out := classify(err)
 			if err == nil && string(buf[ps:ps+pl]) != string(payloadOf(bytesOf, c.Events, i)) {
@@ -458,8 +478,8 @@ func runUInner(c UCase, res *uResult) {
 
 // payloadOf returns the payload the original of event i carried (replays carry the payload of their source).
 func payloadOf(_ [][]byte, evs []UEvent, i int) []byte {
-	for evs[i].Kind == "replay" {
-		i = evs[i].Ref
+	for evs[i].Kind == "replay" || evs[i].Kind == "flip" || evs[i].Kind == "trunc" { // a flipped bit outside the AEAD-covered part
+		i = evs[i].Ref // (identity header of an established session) leaves the payload of the source
 	}
 	return []byte{byte(i), byte(i >> 8), 0xC0, 0x04}
 }
@@ -481,7 +501,7 @@ func (tr truth) valid(side string, csid uint64, nowNs int64, ownSid uint64) (boo
 		return false, "stale"
 	case side == "client" && tr.csid != csid:
 		return false, "foreign-csid"
-	case !tr.rest:
+	case !tr.pad || !tr.addr:
 		return false, "malformed"
 	}
 	return true, ""
@@ -512,6 +532,9 @@ func effSize(n uint64) uint64 {
 
 // oracleU evaluates the property statement on the implementation's per-packet results.
 func oracleU(c UCase, res *uResult) (key, detail string) {
+	if c.Side == "eih" {
+		return oracleEih(c, res)
+	}
 	size := effSize(c.Size)
 	var csid uint64
 	if f := strings.Fields(res.lines[0]); c.Side == "client" {
@@ -609,6 +632,9 @@ func oracleU(c UCase, res *uResult) (key, detail string) {
 
 // isJunk: forged / stale / wrong-type / foreign-session / malformed / short, at its delivery time.
 func isJunk(c UCase, res *uResult, i int) bool {
+	if c.Side == "eih" {
+		return isJunkEih(res, i)
+	}
 	var csid uint64
 	if f := strings.Fields(res.lines[0]); c.Side == "client" {
 		csid, _ = strconv.ParseUint(f[3], 10, 64)
@@ -625,11 +651,17 @@ var gaps = []int64{0, 0, 0, 1e6, 1e9, 1e9, 2e9, 29e9, 30e9, 31e9, 59e9, 60e9 - 1
 
 func genU(r *common.Rng, maxEv int) UCase {
 	c := UCase{Side: "server", Size: common.Pick(r, uSizes), PSKLen: 16, Seed: r.U64()}
-	if r.Bool() {
+	switch r.Intn(5) {
+	case 0, 1:
 		c.Side = "client"
+	case 2:
+		c.Side = "eih"
 	}
 	if r.Bool() {
 		c.PSKLen = 32
+	}
+	if c.Side == "client" && r.Bool() {
+		c.Eih = true
 	}
 	size := effSize(c.Size)
 	al := alphabet(size, r)
@@ -665,6 +697,21 @@ func genU(r *common.Rng, maxEv int) UCase {
 				e.Sess = 0
 			}
 		}
+		if c.Side == "eih" {
+			e.Sess = r.Intn(3)
+			if r.Chance(1, 8) {
+				e.Sess = 3 + r.Intn(2)
+			}
+			e.KU = e.Sess % eihUsers // a session normally belongs to one user
+			switch r.Intn(12) {
+			case 0:
+				e.KU = r.Intn(eihUsers) // another user's key on this session id
+			case 1:
+				e.EU = 1 + r.Intn(eihUsers) // identity header of (possibly) another user
+			case 2:
+				e.EU = 9 // identity header of no known user
+			}
+		}
 		cp := curPid[e.Sess]
 		switch r.Intn(7) {
 		case 0, 1:
@@ -689,7 +736,7 @@ func genU(r *common.Rng, maxEv int) UCase {
 		case k < 15 && i > 0:
 			e.Kind, e.Ref, e.Bit = "trunc", r.Intn(i), r.Intn(64)
 		case k < 16:
-			e.Kind, e.Bit = "short", r.Intn(32)
+			e.Kind, e.Bit = "short", r.Intn(48)
 		case k < 19: // timestamp boundary / stale
 			e.Skew = common.Pick(r, []int64{-31, -30, -29, 29, 30, 31, 40, -40, 3600})
 		case k < 20: // every 64-bit timestamp value is peer-controlled: offsets whose products / differences wrap
@@ -721,6 +768,20 @@ func genU(r *common.Rng, maxEv int) UCase {
 		}
 		if e.Kind == "craft" && r.Chance(1, 5) {
 			e.Pad = r.Range(1, 40)
+		}
+		if e.Kind == "craft" && r.Chance(1, 12) { // several faults at once: the first failing check of the parser decides
+			if r.Bool() {
+				e.Typ = 1 - goodTyp
+			}
+			if r.Bool() {
+				e.Skew = common.Pick(r, []int64{31, -31, 1 << 55})
+			}
+			if r.Bool() && c.Side == "client" {
+				e.Csid = 1
+			}
+			if r.Bool() {
+				e.Cut = common.Pick(r, []string{"pad", "addr", "hdr"})
+			}
 		}
 		c.Events = append(c.Events, e)
 		if e.Kind == "craft" && e.Pid > curPid[e.Sess] && e.Cut == "" && e.Typ == goodTyp && e.Csid == 0 && !e.AbsT && e.Skew >= -30 && e.Skew <= 30 {
